@@ -3,7 +3,8 @@
    Model: C06/Model.v (arrays, loops, recipes, index arithmetic) and
    C06/ModelR.v (Gabor / gammatone / Fbank values over R). *)
 From Coq Require Import ZArith List Bool QArith Qround Reals.
-From Verif Require Import C06.Model C06.CplxProofs C06.PeriodProofs C06.Proofs.
+From Verif Require Import C06.Model C06.ModelR C06.CplxProofs C06.PeriodProofs C06.Proofs
+     C06.FbankRange C06.GaborBound C06.GammatoneBound C06.BoundExamples.
 Import ListNotations.
 
 (* ---- triangular / Fbank: the recipes rebuild the responses exactly ---- *)
@@ -186,3 +187,65 @@ Theorem cplx_half_is_prefix :
     len (cplx_full zero add w true F flo fhi) = doc_half_len w.
 Proof. exact @cplx_half_is_prefix_l. Qed.
 Print Assumptions cplx_half_is_prefix.
+
+(* ---- values over R ---- *)
+Local Open Scope R_scope.
+
+(* Fbank: for every bin of the loops the triangle in mel lies in [0, 1], hence
+   its square root is defined and within [0, 1]: all values finite
+   (li, ri: any integers with ceil / floor-like bounds w.r.t. width*f/rate) *)
+Theorem fbank_values_in_unit_interval :
+  forall (w li ri idx : Z) (l m r rate : R),
+    (1 <= w)%Z -> 0 < rate -> 0 <= l -> l < m -> m < r ->
+    IZR w * l / rate <= IZR li -> IZR ri <= IZR w * r / rate ->
+    (li <= idx <= ri)%Z ->
+    0 <= fbank_tri l m r rate w idx <= 1 /\ 0 <= fbank_val l m r rate w idx <= 1.
+Proof. exact fbank_values_in_unit_interval_l. Qed.
+Print Assumptions fbank_values_in_unit_interval.
+
+(* Gabor, normal branch of get_truncated_response: the rebuilt response is within
+   2 * eps of the full one, for every width and every bin.  Hypotheses: the
+   constructor's support half-width is defined (0 < T), the wrap half-width is
+   at least one standard deviation (1 <= T + ln 2), centre within [0, pi],
+   left_idx / right_idx are the ceil / floor of width * (c -+ d) / 2pi. *)
+Theorem gabor_rebuild_within_2eps :
+  forall (l2 : bool) (sigma c eps : R),
+    0 < sigma -> 0 < eps ->
+    0 < gabor_T l2 eps sigma -> 1 <= gabor_T l2 eps sigma + ln 2 ->
+    ~ gabor_whole_period l2 eps sigma -> 0 <= c <= PI ->
+    forall w li ri : Z,
+    (1 <= w)%Z ->
+    IZR li - 1 < IZR w * (c - gabor_d l2 eps sigma) / (2 * PI) <= IZR li ->
+    IZR ri <= IZR w * (c + gabor_d l2 eps sigma) / (2 * PI) < IZR ri + 1 ->
+    let F := gabor_img l2 sigma c w in
+    exists t r : list R,
+      cplx_trunc 0 Rplus false false w li ri F 0 1 (-1) 2 = Some ((li mod w)%Z, t) /\
+      rebuild_complex 0 w (li mod w) t = Some r /\
+      forall k : Z, (0 <= k < w)%Z ->
+        Rabs (get 0 (cplx_full 0 Rplus w false F (-1) 2) k - get 0 r k) <= 2 * eps.
+Proof. exact gabor_rebuild_within_2eps_l. Qed.
+Print Assumptions gabor_rebuild_within_2eps.
+
+(* complex gammatone, normal branch: full = rebuilt + residual with |residual| <= 2 eps.
+   flo / fhi: the period range floor(left_sup/2pi) .. ceil(right_sup/2pi) + 1. *)
+Theorem gammatone_rebuild_within_2eps :
+  forall (n : nat) (alpha cc xi off eps : R),
+    (1 <= n)%nat -> 0 < alpha -> 0 < cc -> 0 < eps ->
+    alpha ^ 2 < exp (gt_supp_a n cc eps) ->
+    ~ gt_whole_period n alpha cc eps -> 0 <= xi <= PI ->
+    forall w li ri flo fhi : Z,
+    (1 <= w)%Z ->
+    IZR li - 1 < IZR w * (xi - gt_d n alpha cc eps) / (2 * PI) <= IZR li ->
+    IZR ri <= IZR w * (xi + gt_d n alpha cc eps) / (2 * PI) < IZR ri + 1 ->
+    IZR flo <= (xi - gt_d n alpha cc eps) / (2 * PI) < IZR flo + 1 ->
+    IZR fhi - 2 < (xi + gt_d n alpha cc eps) / (2 * PI) <= IZR fhi - 1 ->
+    let F := gt_img n alpha cc xi off w in
+    exists t r : list C,
+      cplx_trunc C0 Cadd true false w li ri F 0 1 flo fhi = Some ((li mod w)%Z, t) /\
+      rebuild_complex C0 w (li mod w) t = Some r /\
+      forall k : Z, (0 <= k < w)%Z ->
+        exists resid : C,
+          get C0 (cplx_full C0 Cadd w false F flo fhi) k = Cadd (get C0 r k) resid /\
+          Cnorm resid <= 2 * eps.
+Proof. exact gammatone_rebuild_within_2eps_l. Qed.
+Print Assumptions gammatone_rebuild_within_2eps.
